@@ -1,11 +1,14 @@
 (* Model of tlexport/session.py: the TLS-over-TCP session (record handling, key lookup, the decrypt() driver). *)
-From Coq Require Import ZArith List Bool String.
+From Coq Require Import ZArith List Bool.
+From Coq Require String.
 Require Import PyLib SuiteTypes SuiteParser Crypto KeySchedule Packet Reassembly Decryptor.
 Import ListNotations.
 Open Scope Z_scope.
 
 (* (plaintext | None, record, isserver) *)
-Record traffic_entry := { te_data : option bytes; te_record : tls_record; te_isserver : bool }.
+(* te_meta = true: an entry the code appends only under -a (exp_meta); the handlers below emit every entry with its tag and
+   the option is applied where the traffic is read (session_traffic): no handler's state depends on it *)
+Record traffic_entry := { te_data : option bytes; te_record : tls_record; te_isserver : bool; te_meta : bool }.
 
 Inductive version_attr := VUndefined | VSet (v : tls_version).    (* self.tls_version: TlsVersion.UNDEFINED until a ServerHello sets it *)
 
@@ -14,8 +17,7 @@ Record tcore := {
   ts_can_decrypt : bool; ts_client_hello_seen : bool; ts_server_cc : bool; ts_client_cc : bool;
   ts_client_random : bytes; ts_version : version_attr;
   ts_extensions : list (bytes * bytes); ts_compression : Z;
-  ts_decryptor : option decryptor;
-  ts_traffic : list traffic_entry }.
+  ts_decryptor : option decryptor }.
 
 (* a Session: endpoint identity (fixed by the first packet), the buffered packets with the duplicate memory, and the core *)
 Record tsession := {
@@ -30,19 +32,17 @@ Definition from_server (s : tsession) (p : packet) : bool := from_server_id (ts_
 
 (* ---- record-level helpers to rebuild the record with one field changed ---- *)
 Definition upd (s : tcore) (can ch scc ccc : bool) (cr : bytes) (v : version_attr) (ext : list (bytes * bytes)) (comp : Z)
-           (d : option decryptor) (tr : list traffic_entry) : tcore :=
+           (d : option decryptor) : tcore :=
   {| ts_can_decrypt := can; ts_client_hello_seen := ch; ts_server_cc := scc; ts_client_cc := ccc;
      ts_client_random := cr; ts_version := v; ts_extensions := ext; ts_compression := comp;
-     ts_decryptor := d; ts_traffic := tr |}.
-Definition set_can (s : tcore) (b : bool) := upd s b (ts_client_hello_seen s) (ts_server_cc s) (ts_client_cc s) (ts_client_random s) (ts_version s) (ts_extensions s) (ts_compression s) (ts_decryptor s) (ts_traffic s).
-Definition set_dec (s : tcore) (d : option decryptor) := upd s (ts_can_decrypt s) (ts_client_hello_seen s) (ts_server_cc s) (ts_client_cc s) (ts_client_random s) (ts_version s) (ts_extensions s) (ts_compression s) d (ts_traffic s).
-Definition add_traffic (s : tcore) (e : traffic_entry) := upd s (ts_can_decrypt s) (ts_client_hello_seen s) (ts_server_cc s) (ts_client_cc s) (ts_client_random s) (ts_version s) (ts_extensions s) (ts_compression s) (ts_decryptor s) (ts_traffic s ++ [e]).
+     ts_decryptor := d |}.
+Definition set_can (s : tcore) (b : bool) := upd s b (ts_client_hello_seen s) (ts_server_cc s) (ts_client_cc s) (ts_client_random s) (ts_version s) (ts_extensions s) (ts_compression s) (ts_decryptor s).
+Definition set_dec (s : tcore) (d : option decryptor) := upd s (ts_can_decrypt s) (ts_client_hello_seen s) (ts_server_cc s) (ts_client_cc s) (ts_client_random s) (ts_version s) (ts_extensions s) (ts_compression s) d.
 Section Sess.
 Variable C : Crypto.
-Variable suite_table : list (Z * string).
+Variable suite_table : list (Z * String.string).
 Variable suite_parts : parts.
 Variable keylog : list secret.          (* the module-level key log at decrypt() time: file lines, then every DSB's lines *)
-Variable exp_meta : bool.
 
 (* find_session_secrets: the lines whose client random equals this session's, in key-log order *)
 Definition find_session_secrets (s : tcore) : list secret :=
@@ -72,7 +72,7 @@ Definition generate_keys (s : tcore) (v : tls_version) (ciphersuite : bytes) (se
   end.
 
 Definition handle_tls_client_hello (s : tcore) (r : tls_record) : tcore :=
-  upd s false true false false (slice (r_body r) 6 38) (ts_version s) (ts_extensions s) (ts_compression s) (ts_decryptor s) (ts_traffic s).
+  upd s false true false false (slice (r_body r) 6 38) (ts_version s) (ts_extensions s) (ts_compression s) (ts_decryptor s).
 
 (* the extension walk: bounded by the declared length; a dict, so a later duplicate replaces the earlier value *)
 Fixpoint ext_walk (fuel : nat) (bin : bytes) (i total : Z) (acc : list (bytes * bytes)) : list (bytes * bytes) :=
@@ -106,7 +106,7 @@ Definition handle_tls_server_hello (s : tcore) (r : tls_record) : result tcore :
   let extensions_bin := if has_ext then slice b (idx + 5) (Z.min (idx + 5 + extensions_length) message_end) else [] in
   let exts := ext_walk (S (Z.to_nat extensions_length)) extensions_bin 0 extensions_length [] in
   let is_tls13 := match ext_get [0; 43] exts with Some v => bytes_eqb v [3; 4] | None => false end in
-  let s1 := upd s true true (ts_server_cc s) (ts_client_cc s) (ts_client_random s) (ts_version s) exts compression (ts_decryptor s) (ts_traffic s) in
+  let s1 := upd s true true (ts_server_cc s) (ts_client_cc s) (ts_client_random s) (ts_version s) exts compression (ts_decryptor s) in
   let rv := from_be (r_version r) in
   let hv := from_be (slice b 4 6) in
   let ver := if rv =? 0x0300 then Some SSL30 else if rv =? 0x0302 then Some TLS11
@@ -114,39 +114,40 @@ Definition handle_tls_server_hello (s : tcore) (r : tls_record) : result tcore :
   match ver with
   | None => Ok (set_can s1 false)
   | Some v =>
-      let s2 := upd s1 (ts_can_decrypt s1) true (ts_server_cc s1) (ts_client_cc s1) (ts_client_random s1) (VSet v) exts compression (ts_decryptor s1) (ts_traffic s1) in
+      let s2 := upd s1 (ts_can_decrypt s1) true (ts_server_cc s1) (ts_client_cc s1) (ts_client_random s1) (VSet v) exts compression (ts_decryptor s1) in
       generate_keys s2 v ciphersuite server_random
   end.
 
-(* handle_handshake_finished; every exception inside is caught by the caller, leaving the session as it was *)
-Definition handle_handshake_finished (s : tcore) (r : tls_record) (isserver : bool) : tcore :=
+(* handle_handshake_finished; every exception inside is caught by the caller, leaving the session as it was.
+   The decrypted Finished is exported under -a when it is not empty. *)
+Definition handle_handshake_finished (s : tcore) (r : tls_record) (isserver : bool) : tcore * list traffic_entry :=
   match ts_decryptor s with
-  | None => s
+  | None => (s, [])
   | Some d =>
       let go := (if isserver then ts_server_cc s else ts_client_cc s) && ts_can_decrypt s in
       if go then
         match decrypt C d r isserver with
         | Ok (d', pt) =>
-            let s' := set_dec s (Some d') in
-            if exp_meta && negb (match pt with Some [] => true | _ => false end)
-            then add_traffic s' {| te_data := pt; te_record := r; te_isserver := isserver |} else s'
-        | Exn _ => s
+            (set_dec s (Some d'),
+             if negb (match pt with Some [] => true | _ => false end)
+             then [ {| te_data := pt; te_record := r; te_isserver := isserver; te_meta := true |} ] else [])
+        | Exn _ => (s, [])
         end
-      else s            (* exp_meta and an unbound _plaintext: UnboundLocalError, caught *)
+      else (s, [])            (* exp_meta and an unbound _plaintext: UnboundLocalError, caught *)
   end.
 
-Definition handle_tls_handshake_record (s : tcore) (r : tls_record) (isserver : bool) : result tcore :=
+Definition handle_tls_handshake_record (s : tcore) (r : tls_record) (isserver : bool) : result (tcore * list traffic_entry) :=
   if ts_server_cc s || ts_client_cc s then Ok (handle_handshake_finished s r isserver)
   else match r_body r with
-       | [] => Ok s                                   (* empty handshake record: ignored *)
-       | t :: _ => if t =? 1 then Ok (handle_tls_client_hello s r)
-                   else if t =? 2 then handle_tls_server_hello s r
+       | [] => Ok (s, [])                             (* empty handshake record: ignored *)
+       | t :: _ => if t =? 1 then Ok (handle_tls_client_hello s r, [])
+                   else if t =? 2 then rmap (fun c => (c, [])) (handle_tls_server_hello s r)
                    else Ok (handle_handshake_finished s r isserver)
        end.
 
 Definition handle_alert (s : tcore) (alert_level : Z) : tcore :=
   if (alert_level =? 1) && negb (match ts_version s with VSet TLS13 => true | _ => false end) then s
-  else upd s false false (ts_server_cc s) (ts_client_cc s) (ts_client_random s) (ts_version s) (ts_extensions s) (ts_compression s) (ts_decryptor s) (ts_traffic s).
+  else upd s false false (ts_server_cc s) (ts_client_cc s) (ts_client_random s) (ts_version s) (ts_extensions s) (ts_compression s) (ts_decryptor s).
 
 (* index of the last non-zero byte + 1 (TLS 1.3 inner plaintext: content || type || zero padding) *)
 Fixpoint strip_zeros_rev (l : bytes) : bytes := match l with 0 :: r => strip_zeros_rev r | _ => l end.
@@ -164,76 +165,79 @@ Fixpoint hs13_walk (fuel : nat) (d : decryptor) (pt : bytes) (i : Z) (isserver :
     end
   else Ok d.
 
-Definition handle_tls_13_application_record (s : tcore) (d : decryptor) (r : tls_record) (isserver : bool) : tcore :=
+Definition handle_tls_13_application_record (s : tcore) (d : decryptor) (r : tls_record) (isserver : bool) : tcore * list traffic_entry :=
   match decrypt C d r isserver with
   | Ok (d', Some pt0) =>
       let pt := strip_padding pt0 in
       let s' := set_dec s (Some d') in
       match rev pt with
-      | [] => s'
+      | [] => (s', [])
       | t :: body_rev =>
           if t =? 22 then
             (* update_keys can only fail on its first call for a side (a missing key), so nothing is half-done *)
             let body := rev body_rev in
-            match hs13_walk (S (List.length body)) d' body 0 isserver with
-            | Ok d'' => set_dec s' (Some d'')
-            | Exn _ => s'
+            match hs13_walk (S (length body)) d' body 0 isserver with
+            | Ok d'' => (set_dec s' (Some d''), [])
+            | Exn _ => (s', [])
             end
-          else if t =? 23 then add_traffic s' {| te_data := Some (rev body_rev); te_record := r; te_isserver := isserver |}
-          else s'
+          else if t =? 23 then (s', [ {| te_data := Some (rev body_rev); te_record := r; te_isserver := isserver; te_meta := false |} ])
+          else (s', [])
       end
-  | Ok (d', None) => set_dec s (Some d')     (* plaintext[-1:] on None: TypeError, caught *)
-  | Exn _ => s
+  | Ok (d', None) => (set_dec s (Some d'), [])     (* plaintext[-1:] on None: TypeError, caught *)
+  | Exn _ => (s, [])
   end.
 
-Definition handle_tls_application_record (s : tcore) (d : decryptor) (r : tls_record) (isserver : bool) : tcore :=
+Definition handle_tls_application_record (s : tcore) (d : decryptor) (r : tls_record) (isserver : bool) : tcore * list traffic_entry :=
   match decrypt C d r isserver with
-  | Ok (d', pt) => add_traffic (set_dec s (Some d')) {| te_data := pt; te_record := r; te_isserver := isserver |}
-  | Exn _ => s
+  | Ok (d', pt) => (set_dec s (Some d'), [ {| te_data := pt; te_record := r; te_isserver := isserver; te_meta := false |} ])
+  | Exn _ => (s, [])
   end.
 
 Definition meta_entry (r : tls_record) (isserver : bool) : traffic_entry :=
-  {| te_data := Some (r_raw r); te_record := r; te_isserver := isserver |}.
+  {| te_data := Some (r_raw r); te_record := r; te_isserver := isserver; te_meta := true |}.
 
-Definition handle_tls_record (s : tcore) (r : tls_record) (isserver : bool) : result tcore :=
+Definition handle_tls_record (s : tcore) (r : tls_record) (isserver : bool) : result (tcore * list traffic_entry) :=
   if r_type r =? 0x16 then
-    do s' <- handle_tls_handshake_record s r isserver;
-    Ok (if exp_meta then add_traffic s' (meta_entry r isserver) else s')
+    do x <- handle_tls_handshake_record s r isserver;
+    Ok (fst x, snd x ++ [meta_entry r isserver])
   else if r_type r =? 0x17 then
     match ts_can_decrypt s, ts_decryptor s with
     | true, Some d =>
         match ts_version s with
         | VSet TLS13 => Ok (handle_tls_13_application_record s d r isserver)
         | VSet _ => Ok (handle_tls_application_record s d r isserver)
-        | VUndefined => Ok (set_can s false)
+        | VUndefined => Ok (set_can s false, [])
         end
-    | _, _ => Ok s
+    | _, _ => Ok (s, [])
     end
   else if r_type r =? 0x15 then
     let s' := match r_body r with [] => s | lvl :: _ => handle_alert s lvl end in
-    Ok (if exp_meta then add_traffic s' (meta_entry r isserver) else s')
+    Ok (s', [meta_entry r isserver])
   else if r_type r =? 0x14 then
     let s' := upd s (ts_can_decrypt s) (ts_client_hello_seen s) (if isserver then true else ts_server_cc s) (if isserver then ts_client_cc s else true)
-                  (ts_client_random s) (ts_version s) (ts_extensions s) (ts_compression s) (ts_decryptor s) (ts_traffic s) in
-    Ok (if exp_meta then add_traffic s' (meta_entry r isserver) else s')
-  else Ok s.
+                  (ts_client_random s) (ts_version s) (ts_extensions s) (ts_compression s) (ts_decryptor s) in
+    Ok (s', [meta_entry r isserver])
+  else Ok (s, []).
 
-Fixpoint handle_records (s : tcore) (rs : list tls_record) (isserver : bool) : result tcore :=
-  match rs with [] => Ok s | r :: t => do s' <- handle_tls_record s r isserver; handle_records s' t isserver end.
+Fixpoint handle_records (s : tcore) (rs : list tls_record) (isserver : bool) : result (tcore * list traffic_entry) :=
+  match rs with
+  | [] => Ok (s, [])
+  | r :: t => do x <- handle_tls_record s r isserver; do y <- handle_records (fst x) t isserver; Ok (fst y, snd x ++ snd y)
+  end.
 
 (* one step of get_tls_records: a buffered packet is appended to its direction's buffer (server_packet_buffer /
    client_packet_buffer, which no record handler ever touches), framed, and the released records are handled *)
-Record rstate := { rs_server_pbuf : list packet; rs_client_pbuf : list packet; rs_core : tcore }.
+Record rstate := { rs_server_pbuf : list packet; rs_client_pbuf : list packet; rs_core : tcore; rs_traffic : list traffic_entry }.
 
 Definition feed_packet (server_ip : bytes) (server_port : Z) (st : rstate) (p : packet) : result rstate :=
   if from_server_id server_ip server_port p then
     do r <- extract (rs_server_pbuf st ++ [p]);
-    do c <- handle_records (rs_core st) (snd r) true;
-    Ok {| rs_server_pbuf := fst r; rs_client_pbuf := rs_client_pbuf st; rs_core := c |}
+    do x <- handle_records (rs_core st) (snd r) true;
+    Ok {| rs_server_pbuf := fst r; rs_client_pbuf := rs_client_pbuf st; rs_core := fst x; rs_traffic := rs_traffic st ++ snd x |}
   else
     do r <- extract (rs_client_pbuf st ++ [p]);
-    do c <- handle_records (rs_core st) (snd r) false;
-    Ok {| rs_server_pbuf := rs_server_pbuf st; rs_client_pbuf := fst r; rs_core := c |}.
+    do x <- handle_records (rs_core st) (snd r) false;
+    Ok {| rs_server_pbuf := rs_server_pbuf st; rs_client_pbuf := fst r; rs_core := fst x; rs_traffic := rs_traffic st ++ snd x |}.
 
 Fixpoint get_tls_records (server_ip : bytes) (server_port : Z) (st : rstate) (ps : list packet) : result rstate :=
   match ps with [] => Ok st | p :: t => do st' <- feed_packet server_ip server_port st p; get_tls_records server_ip server_port st' t end.
@@ -258,7 +262,7 @@ Definition session_handle_packet (s : tsession) (p : packet) : tsession :=
 Definition core0 : tcore :=
   {| ts_can_decrypt := false; ts_client_hello_seen := false; ts_server_cc := false; ts_client_cc := false;
      ts_client_random := []; ts_version := VUndefined; ts_extensions := []; ts_compression := 0;
-     ts_decryptor := None; ts_traffic := [] |}.
+     ts_decryptor := None |}.
 
 (* Session.__init__ + set_client_and_server_ports + the first handle_packet *)
 Definition new_session (p : packet) (server_ports : list Z) : tsession :=
